@@ -96,18 +96,20 @@ End Rate.
 (* ------------------------------------------------------------------------------------------------------------
    choice
    ------------------------------------------------------------------------------------------------------------ *)
-Inductive wt := Wt (w : Z) | Residual.                               (* a weight or RESIDUAL_CHOICE *)
+Inductive wt := Wt (w : Z) | Residual | WNaN | WInf.                 (* a weight, RESIDUAL_CHOICE, nan, +-inf *)
 Inductive wspec :=
   | WNone                                                            (* p=None: uniform *)
   | W1 (row : list wt)                                               (* 1-d: the same weights for every simulant *)
   | W2 (rows : list (list wt)).                                      (* 2-d: one row per simulant *)
 
-Definition is_res (x : wt) : bool := match x with Residual => true | Wt _ => false end.
-Definition wval (x : wt) : Z := match x with Wt w => w | Residual => 0 end.
+Definition is_res (x : wt) : bool := match x with Residual => true | _ => false end.
+Definition is_nan (x : wt) : bool := match x with WNaN => true | _ => false end.
+Definition is_inf (x : wt) : bool := match x with WInf => true | _ => false end.
+Definition wval (x : wt) : Z := match x with Wt w => w | _ => 0 end.
 Definition count_res (row : list wt) : nat := length (filter is_res row).
 Definition others (row : list wt) : Z := sumZ (map wval row).        (* 461-462: p[mask] = 0; sum over the row *)
 Definition fill (U : Z) (row : list wt) : list Z :=
-  map (fun x => match x with Wt w => w | Residual => U - others row end) row.
+  map (fun x => match x with Wt w => w | Residual => U - others row | _ => 0 end) row.
 
 (* _set_residual_probability (U is the numerator of 1) *)
 Definition set_residual (U : Z) (rows : list (list wt)) : result (list (list Z)) :=
@@ -132,7 +134,10 @@ Fixpoint count_below (d D W acc : Z) (ws : list Z) : nat :=
   | w :: r => let c := acc + w in
               Nat.add (if c * D <? d * W then 1%nat else 0%nat) (count_below d D W c r)
   end.
-Definition choice_row (D d : Z) (ws : list Z) : nat := count_below d D (sumZ ws) 0 ws.
+(* 411: p / p.sum - with a NEGATIVE total the normalised weights are (-w_j) / (-W) *)
+Definition choice_row (D d : Z) (ws : list Z) : nat :=
+  let W := sumZ ws in
+  if W <? 0 then count_below d D (- W) 0 (map Z.opp ws) else count_below d D W 0 ws.
 
 (* 415: numpy broadcasting of the (n,1) draws against the (m,k) bins, then Series(values, index) *)
 Definition broadcast {A} (n : nat) (rows : list A) : result (list A) :=
@@ -160,6 +165,99 @@ Definition row_of (c : nat) (p : wspec) (i : nat) : list wt :=
   end.
 
 (* ------------------------------------------------------------------------------------------------------------
+   the non-finite corner: nan, +inf, -inf as probabilities, rates and weights (what the CURRENT code does).
+   IEEE comparisons with nan are false, so a nan probability never selects; +inf always, -inf never.
+   rate_to_probability: nan > 250 is false and exp(-nan) = nan -> probability nan; +inf is clipped to 250;
+   -inf gives 1 - exp(inf) = -inf (no overflow flag is raised for an exact infinity).
+   _choice: a row containing nan has a nan total, every normalised weight and bound is nan, no bound is below the
+   draw -> option 0 (other rows are not affected); a row containing an infinity (and no nan) raises (inf/inf is
+   invalid under seterr(all="raise")); non-finite weights together with RESIDUAL_CHOICE raise (object arithmetic).
+   ------------------------------------------------------------------------------------------------------------ *)
+Inductive xnum := Fin (z : Z) | XNaN | XPInf | XNInf.
+
+Definition x_lt (d : Z) (p : xnum) : bool :=
+  match p with Fin z => d <? z | XPInf => true | XNaN => false | XNInf => false end.
+
+(* the finite probability a non-finite one behaves as, for draws in [0, D): nan and -inf as 0, +inf as 1 *)
+Definition clamp (D : Z) (p : xnum) : Z := match p with Fin z => z | XPInf => D | XNaN => 0 | XNInf => 0 end.
+
+Inductive xpspec :=
+  | XScalar (p : xnum)
+  | XArray (ps : list xnum)
+  | XSeries (labels : list label) (ps : list xnum).
+
+Definition clamp_spec (D : Z) (p : xpspec) : pspec :=
+  match p with
+  | XScalar x => PScalar (clamp D x)
+  | XArray ps => PArray (map (clamp D) ps)
+  | XSeries ls ps => PSeries ls (map (clamp D) ps)
+  end.
+
+Definition expand_x (idx : list label) (p : xpspec) : result (list xnum) :=
+  match p with
+  | XScalar x => Ok (map (fun _ => x) idx)
+  | XArray ps => if Nat.eqb (length ps) (length idx) then Ok ps else Rejected EOther
+  | XSeries ls ps => if zlist_eqb ls idx && Nat.eqb (length ps) (length ls) then Ok ps else Rejected EOther
+  end.
+
+Fixpoint mask_filter_x {A} (xs : list A) (ds : list Z) (ps : list xnum) : list A :=
+  match xs, ds, ps with
+  | x :: xs', d :: ds', p :: ps' => if x_lt d p then x :: mask_filter_x xs' ds' ps' else mask_filter_x xs' ds' ps'
+  | _, _, _ => []
+  end.
+
+Definition filter_px {A} (pop : list (label * A)) (ds : list Z) (p : xpspec) : result (list (label * A)) :=
+  match pop with
+  | [] => Ok []
+  | _ => rbind (expand_x (map fst pop) p) (fun ps => Ok (mask_filter_x pop ds ps))
+  end.
+
+Section RateX.
+  Variable D : Z.
+  Variable cap : Z.
+  Variable expneg : Z -> Z.
+
+  Definition r2p_x (r : xnum) : xnum :=
+    match r with
+    | Fin z => Fin (r2p D cap expneg z)
+    | XNaN => XNaN
+    | XPInf => Fin (r2p D cap expneg cap)              (* inf > 250: clipped *)
+    | XNInf => XNInf                                   (* 1 - exp(inf) *)
+    end.
+
+  Definition r2p_xspec (r : xpspec) : xpspec :=
+    match r with
+    | XScalar x => XScalar (r2p_x x)
+    | XArray rs => XArray (map r2p_x rs)
+    | XSeries _ rs => XArray (map r2p_x rs)
+    end.
+
+  Definition filter_rate_x {A} (pop : list (label * A)) (ds : list Z) (r : xpspec) : result (list (label * A)) :=
+    filter_px pop ds (r2p_xspec r).
+End RateX.
+
+(* choice with non-finite weights, on top of [choice] *)
+Definition nonfinite (x : wt) : bool := is_nan x || is_inf x.
+Definition sanitize_row (row : list wt) : list wt := if existsb is_nan row then map (fun _ => Wt 1) row else row.
+Definition sanitize (p : wspec) : wspec :=
+  match p with WNone => WNone | W1 row => W1 (sanitize_row row) | W2 rows => W2 (map sanitize_row rows) end.
+
+Fixpoint override (flags : list bool) (ks : list nat) : list nat :=
+  match flags, ks with
+  | f :: fs, k :: r => (if f then O else k) :: override fs r
+  | _, _ => []
+  end.
+
+Definition nan_flags (n c : nat) (p : wspec) : list bool := map (fun i => existsb is_nan (row_of c p i)) (seq 0 n).
+
+Definition choice_x (D U : Z) (draws : list Z) (c : nat) (p : wspec) : result (list nat) :=
+  let n := length draws in
+  let rows0 := initial_rows n c p in
+  if existsb (existsb is_res) rows0 && existsb (existsb nonfinite) rows0 then Rejected EOther
+  else if existsb (fun r => negb (existsb is_nan r) && existsb is_inf r) rows0 then Rejected EOther
+  else rbind (choice D U draws c (sanitize p)) (fun ks => Ok (override (nan_flags n c p) ks)).
+
+(* ------------------------------------------------------------------------------------------------------------
    correspondence streams (harness/props/c05.py).  obs code: 0 returned, 1 raised (the property does not distinguish
    exception classes, so neither does the observation).
    ------------------------------------------------------------------------------------------------------------ *)
@@ -175,25 +273,25 @@ Definition draws_ok (D : Z) (ds : list Z) : bool := (0 <? D) && forallb (fun d =
 (* label-aligned reading of a Series probability that carries the same labels in another order.  pandas refuses
    the comparison today (model: Rejected); aligning by label would serve the property equally well, applying the
    values positionally would not.  Only consulted for that malformed class. *)
-Definition aligned_ps (idx ls ps : list Z) : option (list Z) :=
+(* stream `filter`: (D, kind of container in/out, rows (label, content), draws, probability, (code, rows kept)) *)
+Definition filter_case := (Z * (Z * Z) * list (label * Z) * list Z * xpspec * (Z * list (label * Z)))%type.
+
+Definition aligned_xs (idx ls : list Z) (ps : list xnum) : option (list xnum) :=
   let tbl := combine ls ps in
   let vals := map (fun l => zassoc l tbl) idx in
   if forallb (fun v => match v with Some _ => true | None => false end) vals && Nat.eqb (length ls) (length idx)
-  then Some (map (fun v => match v with Some x => x | None => 0 end) vals) else None.
+  then Some (map (fun v => match v with Some x => x | None => XNaN end) vals) else None.
 
-(* stream `filter`: (D, kind of container in/out, rows (label, content), draws, probability, (code, rows kept)) *)
-Definition filter_case := (Z * (Z * Z) * list (label * Z) * list Z * pspec * (Z * list (label * Z)))%type.
-
-Definition agrees_filter (pop : list (label * Z)) (ds : list Z) (p : pspec) (r : result (list (label * Z)))
+Definition agrees_filter (pop : list (label * Z)) (ds : list Z) (p : xpspec) (r : result (list (label * Z)))
            (o : Z * list (label * Z)) : bool :=
   match r with
   | Ok sel => (fst o =? 0) && rows_eqb sel (snd o)
   | Rejected _ =>
       (fst o =? 1) && match snd o with [] => true | _ => false end
       || match p with
-         | PSeries ls ps =>
-             match aligned_ps (map fst pop) ls ps with
-             | Some ps' => (fst o =? 0) && rows_eqb (mask_filter pop ds ps') (snd o)
+         | XSeries ls ps =>
+             match aligned_xs (map fst pop) ls ps with
+             | Some ps' => (fst o =? 0) && rows_eqb (mask_filter_x pop ds ps') (snd o)
              | None => false
              end
          | _ => false
@@ -205,11 +303,11 @@ Definition check_filter (c : filter_case) : bool :=
   let '(D, kinds, pop, ds, p, o) := c in
   draws_ok D ds && Nat.eqb (length ds) (length pop) &&
   ((negb (fst o =? 0)) || (fst kinds =? snd kinds)) &&
-  agrees_filter pop ds p (filter_p pop ds p) o.
+  agrees_filter pop ds p (filter_px pop ds p) o.
 
 (* stream `rate`: (D, rate denominator, table clipped-rate -> exp(-rate) numerator, rows, draws, rate, obs) *)
 Definition rate_case :=
-  (Z * Z * list (Z * Z) * (Z * Z) * list (label * Z) * list Z * pspec * (Z * list (label * Z)))%type.
+  (Z * Z * list (Z * Z) * (Z * Z) * list (label * Z) * list Z * xpspec * (Z * list (label * Z)))%type.
 
 Definition tbl_expneg (tbl : list (Z * Z)) (r : Z) : Z := match zassoc r tbl with Some e => e | None => -1 end.
 
@@ -217,8 +315,8 @@ Definition check_rate (c : rate_case) : bool :=
   let '(D, Dr, tbl, kinds, pop, ds, r, o) := c in
   draws_ok D ds && Nat.eqb (length ds) (length pop) && (0 <? Dr) &&
   ((negb (fst o =? 0)) || (fst kinds =? snd kinds)) &&
-  agrees_filter pop ds (r2p_spec D (250 * Dr) (tbl_expneg tbl) r)
-                (filter_rate D (250 * Dr) (tbl_expneg tbl) pop ds r) o.
+  agrees_filter pop ds (r2p_xspec D (250 * Dr) (tbl_expneg tbl) r)
+                (filter_rate_x D (250 * Dr) (tbl_expneg tbl) pop ds r) o.
 
 (* streams `choice` / `rawchoice`: (D, U, draws, number of options, weights, (code, chosen option per simulant)) *)
 Definition choice_case := (Z * Z * list Z * nat * wspec * (Z * list Z))%type.
@@ -226,7 +324,7 @@ Definition choice_case := (Z * Z * list Z * nat * wspec * (Z * list Z))%type.
 Definition check_choice (c : choice_case) : bool :=
   let '(D, U, ds, k, p, o) := c in
   draws_ok D ds && (0 <? U) &&
-  match choice D U ds k p with
+  match choice_x D U ds k p with
   | Ok ks => (fst o =? 0) && zlist_eqb (map Z.of_nat ks) (snd o)
   | r => (code_of r =? fst o) && match snd o with [] => true | _ => false end
   end.
